@@ -1,4 +1,5 @@
 import CalVerif.Lemmas.Metadata
+import CalVerif.Model.MetadataCells
 /-! # C16 — workbook metadata is reported faithfully and in workbook order
 
     Theorems about the model `CalVerif/Model/Metadata.lean` (tied to /repo by `harness/src/bin/c16.rs`) and the
@@ -369,6 +370,55 @@ example :
       .ok ⟨[⟨"A & <B>", .workSheet, .hidden⟩, ⟨"b", .workSheet, .visible⟩, ⟨"c", .workSheet, .visible⟩, ⟨"d", .workSheet, .visible⟩],
            [("n1", "$'A & <B>'.$A$1"), ("n2", "")], false⟩ := by
   decide
+
+/-! ## the date-system flag reaches the date cells (with C10's model of the value wrapping) -/
+
+/-- a numeric cell whose style is a date/time format comes back as an `ExcelDateTime` that carries exactly the
+    workbook's flag (float and integer paths); any other cell carries no flag -/
+theorem date1904_reaches_cells {α : Type} (wb : Workbook α) (fmt : Option CellFormat) (v : UInt64) (i : Int) :
+    ((fmt = some .dateTime ∨ fmt = some .timeDelta) →
+        flagOf (floatCell wb fmt v) = some wb.is1904 ∧ flagOf (intCell wb fmt i) = some wb.is1904) ∧
+    (fmt ≠ some .dateTime → fmt ≠ some .timeDelta → flagOf (floatCell wb fmt v) = none ∧ flagOf (intCell wb fmt i) = none) := by
+  constructor
+  · rintro (rfl | rfl) <;> exact ⟨rfl, rfl⟩
+  · intro h1 h2
+    match fmt, h1, h2 with
+    | none, _, _ => exact ⟨rfl, rfl⟩
+    | some .other, _, _ => exact ⟨rfl, rfl⟩
+    | some .dateTime, h1, _ => exact absurd rfl h1
+    | some .timeDelta, _, h2 => exact absurd rfl h2
+
+/-- xls: every date-styled numeric cell of every sheet shows the flag the DATEMODE record declares -/
+theorem date1904_reaches_cells_xls (pd : Bytes → Res (Option Nat × Text))
+    (recs : List GRec) (hall : ∀ r ∈ recs, r.ok) (tail : Bytes) (htail : Biff.notCont tail)
+    (hoff : ∀ s ∈ declaredSheets recs, s.offset ≤ (encodeGlobals recs tail).length)
+    (wb : Workbook Text) (h : parseWorkbookXls pd (encodeGlobals recs tail) = .ok wb)
+    (fmt : Option CellFormat) (hf : fmt = some .dateTime ∨ fmt = some .timeDelta) (v : UInt64) (i : Int) :
+    flagOf (floatCell wb fmt v) = some (declared1904 recs) ∧ flagOf (intCell wb fmt i) = some (declared1904 recs) := by
+  rw [← date1904_flag_xls pd recs hall tail htail hoff wb h]
+  exact (date1904_reaches_cells wb fmt v i).1 hf
+
+/-- xlsb: every date-styled numeric cell shows bit 0 of BrtWbProp -/
+theorem date1904_reaches_cells_xlsb (pf : Bytes → List Text → List (Text × Text) → Res Text) (rels : List (Text × String))
+    (recs : List WRec) (hall : ∀ r ∈ recs, r.ok rels) (ew : Bool) (el : Nat)
+    (t : Nat) (ht : isAfterNames t = true) (tw : Bool) (tl : Nat) (rest : Bytes)
+    (wb : Workbook Text) (p : List (List Char))
+    (h : readWorkbookXlsb pf rels (encodeWorkbookBin recs ew el (Xlsb.frame t [] tw tl ++ rest)) = .ok (wb, p))
+    (fmt : Option CellFormat) (hf : fmt = some .dateTime ∨ fmt = some .timeDelta) (v : UInt64) (i : Int) :
+    flagOf (floatCell wb fmt v) = some (flagW recs) ∧ flagOf (intCell wb fmt i) = some (flagW recs) := by
+  rw [← date1904_flag_xlsb pf rels recs hall ew el t ht tw tl rest wb p h]
+  exact (date1904_reaches_cells wb fmt v i).1 hf
+
+/-- xlsx: every date-styled numeric cell shows `date1904 ∈ {"1", "true"}` of `<workbookPr>`, under any prefix -/
+theorem date1904_reaches_cells_xlsx (rels : List (String × String)) (q : String → String) (hq : QOk q)
+    (ridKey : String) (hk : ridKeyOk ridKey) (d : String)
+    (sheets : List XSheet) (hs : ∀ s ∈ sheets, s.ok rels) (names : List (String × List String))
+    (wb : Workbook String) (p : List (List Char))
+    (h : readWorkbookXlsx rels (workbookEvents q ridKey (some [("date1904", d)]) sheets names) = .ok (wb, p))
+    (fmt : Option CellFormat) (hf : fmt = some .dateTime ∨ fmt = some .timeDelta) (v : UInt64) (i : Int) :
+    flagOf (floatCell wb fmt v) = some (d = "1" || d = "true") ∧ flagOf (intCell wb fmt i) = some (d = "1" || d = "true") := by
+  rw [← date1904_flag_xlsx rels q hq ridKey hk d sheets hs names wb p h]
+  exact (date1904_reaches_cells wb fmt v i).1 hf
 
 /-! ## xlsx: the date-system flag under a namespace prefix (ledger D22) -/
 
